@@ -122,12 +122,13 @@ template <class App> void check_perms(const Space<App> &S, const std::string &si
     vp::outcome(std::string(App::name()) + (del == "-" ? ":" : ":del:") + "n=" + std::to_string(n) + (family ? ":family" : ":all") + (bad ? ":ORDER-DEPENDENT" : ":same"));
 }
 
-template <class App> void check_state(const Space<App> &S, const Hist &h, size_t limit, bool &saw_family)
+template <class App> void check_state(const Space<App> &S, const Hist &h, size_t limit, bool &saw_family, size_t state_index)
 {
     const std::string sid = std::string(App::name()) + "|" + Space<App>::hist_id(h);
     mark(sid + "|save", "save", "");
     App inst;
     S.replay(inst, h);
+    if(state_index != (size_t)-1) S.verify(inst, state_index);
     const std::string text = save(inst);
     vp::transition();
     File f = parse_file(text, App::name());
@@ -145,7 +146,7 @@ template <class App> void check_state(const Space<App> &S, const Hist &h, size_t
     }
 
     if(n >= 2 && (!replay || want_del == "-")) {
-        vp::nontrivial(vp::fnv(text));
+        vp::nontrivial(vp::fnv(inst.canon()));
         check_perms(S, sid, "-", f, f.msgs, f.paths, limit, saw_family, replay ? &want_perm : nullptr);
         // anti-vacuity only: does the order matter for this application state at all? Apply the lines one by one,
         // last line first, each through its own dispatch_printed_messages call (no sorting possible).
@@ -154,7 +155,9 @@ template <class App> void check_state(const Space<App> &S, const Hist &h, size_t
             if(r == (int)n) {
                 App naive; bool okall = true;
                 for(size_t i = n; i-- > 0;) { mark(sid + "|naive", "dispatch_printed_messages", f.msgs[i]); if(rtosc::dispatch_printed_messages(f.msgs[i].c_str(), App::ports, &naive) != 1) okall = false; }
-                vp::outcome(std::string(App::name()) + (okall && naive.canon() == base.canon() ? ":reversed-unsorted-load-same" : ":reversed-unsorted-load-DIFFERS(sorting needed)"));
+                bool same = okall && naive.canon() == base.canon();
+                vp::outcome(std::string(App::name()) + (same ? ":reversed-unsorted-load-same" : ":reversed-unsorted-load-DIFFERS(sorting needed)"));
+                if(!same && n >= 3) vp::sample("order matters for: " + S.show(h) + "  =>  " + vp::show(text.substr(f.header.size(), 300)), 4);
             }
         }
     }
@@ -194,7 +197,7 @@ template <class App> void run_app(int depth, int root_depth, size_t limit)
         Hist h;
         if(!Space<App>::parse_hist(id.substr(b1 + 1, b2 - b1 - 1), h)) return;
         for(uint16_t c : h) if(!(c < S.ops.size() || (c >= ROOT0 && c - ROOT0 < (int)S.roots.size()))) return;
-        supervise(app, 1, [&](size_t) { check_state(S, h, limit, saw_family); }, crashed);
+        supervise(app, 1, [&](size_t) { check_state(S, h, limit, saw_family, (size_t)-1); }, crashed);
         return;
     }
     S.explore(depth, root_depth);
@@ -203,7 +206,7 @@ template <class App> void run_app(int depth, int root_depth, size_t limit)
     for(size_t i = 0; i < S.states.size(); ++i, ++g_index) if(vp::mine(g_index)) todo.push_back(i);
     supervise(app, todo.size(), [&](size_t k) {
         vp::state();
-        check_state(S, S.states[todo[k]], limit, saw_family);
+        check_state(S, S.states[todo[k]], limit, saw_family, todo[k]);
     }, crashed);
 }
 
